@@ -76,15 +76,40 @@ theorem window1_none_iff (large small : Nat) (pos : Rat) (hs : small ≠ 0) :
   · intro h
     rw [if_pos (by omega)]
 
-/-- units: for the skeleton extracted from the source the output carries units as soon as ANY overlapping row is
-    unit-ful — independently of which rows overlap and of the row order -/
-theorem units_independent_of_row_order (ny nx : Nat) (r1 r2 : List Row) (h : r1.Perm r2) :
-    outputHasUnit ny nx r1 = outputHasUnit ny nx r2 := by
+/-- units: for the skeleton extracted from the source, a table of unit-ful rows gives a unit-ful image whichever rows overlap
+    the image (even none), and a table of unit-less rows never does -/
+theorem units_regardless_of_overlap (ny nx : Nat) (rows : List Row) (hne : rows ≠ []) (hu : ∀ r ∈ rows, r.hasUnit = true) :
+    outputHasUnit ny nx rows = true := by
+  unfold outputHasUnit
+  have ha : attachesUnitAfterLoop = true := by decide
+  have hl : (rows.getLast?.map (·.hasUnit)).getD false = true := by
+    rw [List.getLast?_eq_some_getLast hne]
+    simp [hu _ (List.getLast_mem hne)]
+  simp [ha, hl]
+
+theorem no_units_without_unitful_rows (ny nx : Nat) (rows : List Row) (hu : ∀ r ∈ rows, r.hasUnit = false) :
+    outputHasUnit ny nx rows = false := by
   unfold outputHasUnit
   have hf : unitsDependOnRowIndex = false := by decide
-  simp only [hf, Bool.false_eq_true, if_false]
-  rw [Bool.eq_iff_iff, List.any_eq_true, List.any_eq_true]
-  exact ⟨fun ⟨r, hr, hp⟩ => ⟨r, h.mem_iff.mp hr, hp⟩, fun ⟨r, hr, hp⟩ => ⟨r, h.mem_iff.mpr hr, hp⟩⟩
+  have h1 : (rows.any fun r => (window ny nx r).isSome && r.hasUnit) = false := by
+    rw [List.any_eq_false]; intro r hr; simp [hu r hr]
+  have h2 : (rows.getLast?.map (·.hasUnit)).getD false = false := by
+    cases hgl : rows.getLast? with
+    | none => rfl
+    | some r => simp [hu r (List.mem_of_getLast? hgl)]
+  simp [hf, h1, h2]
+
+/-- hence the flag does not depend on the row order when the rows agree on being unit-ful (one model renders them all) -/
+theorem units_independent_of_row_order (ny nx : Nat) (r1 r2 : List Row) (h : r1.Perm r2) (b : Bool)
+    (hb : ∀ r ∈ r1, r.hasUnit = b) : outputHasUnit ny nx r1 = outputHasUnit ny nx r2 := by
+  have hb2 : ∀ r ∈ r2, r.hasUnit = b := fun r hr => hb r (h.mem_iff.mpr hr)
+  cases b with
+  | false => rw [no_units_without_unitful_rows ny nx r1 hb, no_units_without_unitful_rows ny nx r2 hb2]
+  | true =>
+    by_cases hne : r1 = []
+    · subst hne; rw [List.nil_perm.mp h]
+    · have hne2 : r2 ≠ [] := fun h2 => hne (by subst h2; exact List.perm_nil.mp h)
+      rw [units_regardless_of_overlap ny nx r1 hne hb, units_regardless_of_overlap ny nx r2 hne2 hb2]
 
 /-- a residual image is exactly data minus the model image -/
 theorem residual_is_data_minus_model (data : Nat → Nat → Rat) (ny nx : Nat) (rows : List Row) (y x : Nat) :
